@@ -866,11 +866,11 @@ var c13Strs = []string{"", "a", "ab", "abc", "abcabc", "aaa", "aXbXc", "a,b,,c",
 
 var c13Nums = []float64{0, math.Copysign(0, -1), 1, -1, 2, 3, 0.5, -0.5, 1.5, -1.5, 2.5, -2.5, 0.4, -0.4, 0.49999999999999994, 2.4, 2.7, 10, 100, 255, 256, 1e6, 2147483647, 2147483648, 4294967296, 9007199254740992, 9007199254740993, 4503599627370495.5, 4503599627370496.5, -4503599627370495.5, 9223372036854775807, 9223372036854775808, -9223372036854775808, 1e30, -1e30, 1e300, math.MaxFloat64, math.SmallestNonzeroFloat64, -math.SmallestNonzeroFloat64, math.Inf(1), math.Inf(-1), math.NaN(), math.Pi, math.E, 1e-7, 123456789, 0.1, 1.0 / 3}
 
-func pick[T any](rng *rand.Rand, l []T) T { return l[rng.Intn(len(l))] }
+func c13pick[T any](rng *rand.Rand, l []T) T { return l[rng.Intn(len(l))] }
 
 func genStr(rng *rand.Rand) string {
 	if rng.Intn(4) > 0 {
-		return pick(rng, c13Strs)
+		return c13pick(rng, c13Strs)
 	}
 	alphabet := []rune("ab,. äX日😀_1\t\"")
 	n := rng.Intn(7)
@@ -890,7 +890,7 @@ func genNum(rng *rand.Rand) float64 {
 	case 2:
 		return math.Float64frombits(rng.Uint64())
 	}
-	return pick(rng, c13Nums)
+	return c13pick(rng, c13Nums)
 }
 
 func genBasic(rng *rand.Rand) cVal {
@@ -912,7 +912,7 @@ func genVal(rng *rand.Rand, depth int) cVal {
 	}
 	switch rng.Intn(4) {
 	case 0: // homogeneous array
-		t := pick(rng, []*cTy{tyNum, tyStr, tyBool})
+		t := c13pick(rng, []*cTy{tyNum, tyStr, tyBool})
 		n := rng.Intn(4)
 		l := make([]cVal, n)
 		for i := range l {
@@ -927,7 +927,7 @@ func genVal(rng *rand.Rand, depth int) cVal {
 		}
 		return vArr(tyAny, l...)
 	case 2: // map
-		t := pick(rng, []*cTy{tyNum, tyStr, tyBool})
+		t := c13pick(rng, []*cTy{tyNum, tyStr, tyBool})
 		n := rng.Intn(4)
 		perm := rng.Perm(len(c13Keys))[:n]
 		keys := make([]string, n)
@@ -973,9 +973,9 @@ func genFormat(rng *rand.Rand) string {
 	parts := []string{}
 	for i := 0; i < n; i++ {
 		if rng.Intn(3) == 0 {
-			parts = append(parts, pick(rng, []string{"x=", " ", "é:", "100", "\n", ""}))
+			parts = append(parts, c13pick(rng, []string{"x=", " ", "é:", "100", "\n", ""}))
 		}
-		parts = append(parts, pick(rng, c13Formats))
+		parts = append(parts, c13pick(rng, c13Formats))
 	}
 	return strings.Join(parts, "")
 }
@@ -1057,7 +1057,7 @@ func genArgs(rng *rand.Rand, sig c13Sig) []cVal {
 // within sleep's domain the platform is asked to sleep: keep it tiny in the
 // harness (RunEvy's platform only records it)
 func genCall(rng *rand.Rand) cCall {
-	sig := pick(rng, c13Sigs)
+	sig := c13pick(rng, c13Sigs)
 	return cCall{Name: sig.name, Args: genArgs(rng, sig)}
 }
 
@@ -1081,9 +1081,9 @@ func genTestCall(rng *rand.Rand) cCall {
 		a := genVal(rng, 2)
 		return cCall{Name: "test", Args: []cVal{a, vAny(a)}}
 	case 7:
-		return cCall{Name: "test", Args: []cVal{genBasic(rng), genBasic(rng), vStr(pick(rng, []string{"msg", "", "é %v"}))}}
+		return cCall{Name: "test", Args: []cVal{genBasic(rng), genBasic(rng), vStr(c13pick(rng, []string{"msg", "", "é %v"}))}}
 	case 8:
-		return cCall{Name: "test", Args: []cVal{genBasic(rng), genBasic(rng), vStr(pick(rng, []string{"got %v", "%v and %q", "%d"})), genBasic(rng)}}
+		return cCall{Name: "test", Args: []cVal{genBasic(rng), genBasic(rng), vStr(c13pick(rng, []string{"got %v", "%v and %q", "%d"})), genBasic(rng)}}
 	}
 	return cCall{Name: "test", Args: []cVal{genVal(rng, 2), genVal(rng, 2)}}
 }
@@ -1091,7 +1091,7 @@ func genTestCall(rng *rand.Rand) cCall {
 func genStopCall(rng *rand.Rand) cCall {
 	switch rng.Intn(3) {
 	case 0:
-		return cCall{Name: "exit", Args: []cVal{vNum(pick(rng, []float64{0, 1, 2, 255, 256, 257, -1, 0.5, -0.5, 1.9, 1e30, math.NaN(), math.Inf(1), 9223372036854775808, -9223372036854775808, 4294967296 + 7}))}}
+		return cCall{Name: "exit", Args: []cVal{vNum(c13pick(rng, []float64{0, 1, 2, 255, 256, 257, -1, 0.5, -0.5, 1.9, 1e30, math.NaN(), math.Inf(1), 9223372036854775808, -9223372036854775808, 4294967296 + 7}))}}
 	case 1:
 		return cCall{Name: "panic", Args: []cVal{vStr(genStr(rng))}}
 	}
@@ -1111,9 +1111,9 @@ func genC13Case(rng *rand.Rand) *c13Case {
 		for i := 0; i < n; i++ {
 			switch rng.Intn(4) {
 			case 0:
-				c.Calls = append(c.Calls, cCall{Name: "str2num", Args: []cVal{vStr(pick(rng, []string{"1", "x", "", "1e999", "2.5", "-0", "NaN", " 1", "0x10", "٣"}))}})
+				c.Calls = append(c.Calls, cCall{Name: "str2num", Args: []cVal{vStr(c13pick(rng, []string{"1", "x", "", "1e999", "2.5", "-0", "NaN", " 1", "0x10", "٣"}))}})
 			case 1:
-				c.Calls = append(c.Calls, cCall{Name: "str2bool", Args: []cVal{vStr(pick(rng, []string{"true", "false", "t", "F", "yes", "", "TRUE", "tRUE", "1", "0", "2"}))}})
+				c.Calls = append(c.Calls, cCall{Name: "str2bool", Args: []cVal{vStr(c13pick(rng, []string{"true", "false", "t", "F", "yes", "", "TRUE", "tRUE", "1", "0", "2"}))}})
 			case 2:
 				c.Calls = append(c.Calls, cCall{Name: "str2num", Args: []cVal{vStr(genStr(rng))}})
 			default:
